@@ -286,6 +286,8 @@ class CaseInterp:
                 return ('tuple', ops)
             if a['k'] == 'closure':
                 return ('clo', a['path'], ops)
+            if a['k'] == 'array':
+                return ('list', ops)     # a literal array: its elements are known one by one
             if a['k'] == 'adt':
                 p, var = a['path'], a['variant']
                 if p.endswith('option::Option'):
@@ -432,6 +434,38 @@ class CaseInterp:
         if n == 'then_some' and len(a) == 2 and isinstance(a[0], bool):
             return some(a[1]) if a[0] else NONE
         # iterators are symbolic pipelines: ('pipe', source, [stage, ..]); their meaning is decided element by element by the contract
+        if a and isinstance(a[0], tuple) and a[0][:1] == ('list',) and n in ('iter', 'into_iter', 'iter_mut') and len(a) == 1:
+            return ('pipe', a[0], [])
+        if a and isinstance(a[0], tuple) and a[0][:1] == ('pipe',) and isinstance(a[0][1], tuple) and a[0][1][:1] == ('list',) and \
+                n in ('find', 'any', 'all', 'position', 'count', 'find_map') and len(a) <= 2:
+            # a pipeline over a literal array is walked element by element
+            outs = []
+            for i_, el_ in enumerate(a[0][1][1]):
+                o_, rev_ = pipe_outputs(self.F, self.ext, a[0], el_, i_)
+                if rev_:
+                    raise Unknown('reversed literal array')
+                outs.extend(o_)
+            if n == 'count':
+                return len(outs)
+            for i_, o_ in enumerate(outs):
+                r_ = self.apply(a[1], [o_])
+                if n == 'find_map':
+                    if not is_opt(r_):
+                        raise Unknown('find_map result')
+                    if r_[0] == 'some':
+                        return r_
+                    continue
+                if not isinstance(r_, bool):
+                    raise Unknown('predicate over a literal array')
+                if n == 'find' and r_:
+                    return some(o_)
+                if n == 'position' and r_:
+                    return some(i_)
+                if n == 'any' and r_:
+                    return True
+                if n == 'all' and not r_:
+                    return False
+            return {'find': NONE, 'find_map': NONE, 'position': NONE, 'any': False, 'all': True}[n]
         if a and isinstance(a[0], tuple) and a[0][:1] == ('array',) and short.startswith('Slab::') and n in ('iter', 'iter_mut'):
             return ('pipe', ('slab', a[0]), [])
         if a and isinstance(a[0], tuple) and a[0][:1] == ('array',) and n in ('iter', 'into_iter', 'iter_mut', 'enumerate'):
